@@ -87,7 +87,7 @@ fn call_strategy(pal: Vec<char>) -> BoxedStrategy<Call> {
             // a limit class fixes the needle length too (tiled motif)
             let (nshape, ntile) = if limit_needle > 0 && nshape != 2 { (3u8, limit_needle) } else { (nshape, ntile) };
             let motif = text_from(&pal, &hs);
-            let hay = Text { motif: motif.clone(), tile_to: tile, tail: vec![] };
+            let hay = Text { motif: motif.clone(), tile_to: tile, tail: vec![], head: vec![] };
             // needle: normalized derivation, or raw (possibly not normalized) palette text, or tiled
             let needle = match nshape {
                 0 | 1 => Text::plain(derive_needle(&hay.expand()[..hay.expand().len().min(300)], &pal, cfg, &mode)),
@@ -105,15 +105,19 @@ fn call_strategy(pal: Vec<char>) -> BoxedStrategy<Call> {
                     let k = 2 + (nsel as usize & 1);
                     Text::plain((0..k).map(|i| NL[(nsel as usize >> (4 * i + 1)) % NL.len()]).collect())
                 }
-                _ => Text { motif: motif.iter().map(|&c| norm(c, cfg)).collect(), tile_to: ntile, tail: vec![] },
+                _ => Text { motif: motif.iter().map(|&c| norm(c, cfg)).collect(), tile_to: ntile, tail: vec![], head: vec![] },
             };
             Call { algo, indices, cfg, hay, needle, hay_unicode: hu, needle_unicode: nu, prior, clone_mode: 0 }
         })
         .prop_flat_map(move |c| {
             let _ = &pal2;
-            prop_oneof![88 => Just(0u8), 6 => Just(1u8), 6 => Just(2u8)].prop_map(move |m| {
+            (prop_oneof![88 => Just(0u8), 6 => Just(1u8), 6 => Just(2u8)], prop_oneof![96 => Just(0u32), 4 => proptest::sample::select(vec![65_534u32, 65_535, 65_536, 65_537, 70_000, 139_000])]).prop_map(move |(m, far)| {
                 let mut c = c.clone();
                 c.clone_mode = m;
+                // a small haystack moved behind 64k+ filler characters (offsets beyond 16 bits)
+                if far > 0 && c.hay.tile_to == 0 && c.hay.motif.len() <= 60 {
+                    c.hay = Text { head: vec![], motif: vec!['q'], tile_to: far, tail: c.hay.motif.clone() };
+                }
                 c
             })
         })
@@ -130,7 +134,7 @@ impl Check for C10 {
         "C10"
     }
     fn rule(&self) -> String {
-        "sequences of 1-6 calls sharing one Matcher (configuration assigned only when it differs from the previous call's; 40% of the sequences use one configuration throughout; haystack and needle of every call are stored at the same addresses): algorithm among the 12 entry points, haystack from a per-sequence palette (0-40 chars, 50-2500 tiled, or a limit size from {1023..1025, 320/321, 51200/51201, 65535/65536, 70000, 100000, 120000}), needle normalized-derived / raw not-normalized / 2-3 ASCII non-letters / tiled to {2,100,101,319,320,2047,2048,2049,3000}, representation bits, prior index content; before 12% of the calls the shared matcher is replaced by a clone of itself (original dropped) or the call runs on a temporary clone. Oracle: no panic or overflow (checked profile), every scratch view exported by the slab hook lies inside the slab allocation, and result + appended indices equal those of a freshly created matcher. Non-trivial: the sequence has >= 2 calls that reached the matrix allocator with different sizes, a later one smaller, or a call in a limit class. Distinct by case hash. The cargo-fuzz target fuzz_matcher (ASan + debug assertions) runs the same oracle coverage-guided in the thorough tier.".into()
+        "sequences of 1-6 calls sharing one Matcher (configuration assigned only when it differs from the previous call's; 40% of the sequences use one configuration throughout; haystack and needle of every call are stored at the same addresses): algorithm among the 12 entry points, haystack from a per-sequence palette (0-40 chars - in 4% of the calls behind 65534..139000 filler characters -, 50-2500 tiled, or a limit size from {1023..1025, 320/321, 51200/51201, 65535/65536, 70000, 100000, 120000}), needle normalized-derived / raw not-normalized / 2-3 ASCII non-letters / tiled to {2,100,101,319,320,2047,2048,2049,3000}, representation bits, prior index content; before 12% of the calls the shared matcher is replaced by a clone of itself (original dropped) or the call runs on a temporary clone. Oracle: no panic or overflow (checked profile), every scratch view exported by the slab hook lies inside the slab allocation, and result + appended indices equal those of a freshly created matcher. Non-trivial: the sequence has >= 2 calls that reached the matrix allocator with different sizes, a later one smaller, or a call in a limit class. Distinct by case hash. The cargo-fuzz target fuzz_matcher (ASan + debug assertions) runs the same oracle coverage-guided in the thorough tier.".into()
     }
     fn assumptions(&self) -> Vec<String> {
         vec!["haystacks stay far below the documented 2^32 limit (memory)".into(), "Miri-grade provenance rules are not checked; 'forming references' is covered for the five slab views through the exported extents".into()]
@@ -324,7 +328,7 @@ pub fn decode_seq(data: &[u8]) -> SeqCase {
             limit_needle = n;
             h
         };
-        let hay = Text { motif: motif.clone(), tile_to: tile, tail: vec![] };
+        let hay = Text { motif: motif.clone(), tile_to: tile, tail: vec![], head: vec![] };
         let mut nshape = b.below(4);
         if limit_needle > 0 && nshape != 2 {
             nshape = 3;
@@ -345,7 +349,7 @@ pub fn decode_seq(data: &[u8]) -> SeqCase {
             _ => {
                 let sizes = [2u32, 100, 101, 319, 320, 2047, 2048, 2049, 3000];
                 let t = if limit_needle > 0 { limit_needle } else { sizes[b.below(sizes.len())] };
-                Text { motif: motif.iter().map(|&c| norm(c, cfg)).collect(), tile_to: t, tail: vec![] }
+                Text { motif: motif.iter().map(|&c| norm(c, cfg)).collect(), tile_to: t, tail: vec![], head: vec![] }
             }
         };
         let r = b.byte();
